@@ -466,6 +466,10 @@ impl<'c> Hist<'c> {
 			rep.seen(format!("drop@{}|{}", sh, self.cfg_key));
 		}
 		self.ctx.progress();
+		if std::env::var("PDBV_DEBUG_VALIDATE_BEFORE_DROP").is_ok() {
+			self.log("debug: validate right before the drop".into());
+			self.validate(&db, rep, false)?;
+		}
 		db.close();
 		self.mirror.clear();
 		self.restarts += 1;
@@ -1853,9 +1857,31 @@ impl<'c> Hist<'c> {
 					)
 				},
 				Err(e) => {
+					// which live roots reach the node the message names (diagnosis aid)
+					let mut who = String::new();
+					if let Some(id) = e.split("live node ").nth(1).and_then(|x| x.split(' ').next()).and_then(|x| x.parse::<u64>().ok()) {
+						let mut owners = vec![];
+						for (rk, r) in &tm.roots {
+							let mut stack: Vec<u64> = r.children.clone();
+							let mut seen = BTreeSet::new();
+							while let Some(n) = stack.pop() {
+								if !seen.insert(n) {
+									continue
+								}
+								if n == id {
+									owners.push(short_bytes(rk));
+									break
+								}
+								if let Some(m) = tm.nodes.get(&n) {
+									stack.extend(m.children.iter().copied());
+								}
+							}
+						}
+						who = format!(" [model: node {} has {} parent reference(s), reachable from live root(s) {:?}]", id, tm.nodes.get(&id).map_or(0, |n| n.refs), owners);
+					}
 					return fail(
 						format!("failure=tree_mismatch;col={}", kind),
-						format!("tree {} does not read back as committed ({}): {}", short_bytes(k), if direct { "direct access" } else { "tree reader" }, e),
+						format!("tree {} does not read back as committed ({}): {}{}", short_bytes(k), if direct { "direct access" } else { "tree reader" }, e, who),
 					)
 				},
 			}
